@@ -72,7 +72,16 @@ CLAIMED = {
             'Trusted: mirsym + environment models (hash-map iteration pinned to insertion order in the read-only/event harnesses, stated in the evidence). Outside: ECMAScript datamodel. One defect repaired (9f30b1b).',
             'DESIGN.md §4 C09'),
 }
-NA_REASON = {}
+CLAIMED['C04'] = ('model_checking', 'symbolic execution of rustc MIR (mirsym) + z3: the real scxml_reader handlers on documents rendered from a symbolic statechart model; quick-xml replaced by an event-source model validated against the native build',
+    'Bounded symbolic model checking above the lexical layer: every document rendered from the 13 catalogue shapes with a solver-chosen transition (source, targets incl. forward references, type, event spelling, cond), each spelling of the initial configuration, quoting and binding is parsed by the real reader code and the resulting Fsm is compared element by element with the model it was rendered from (nesting, kinds, document order, initial, history, onentry/onexit, transition fields); if/elseif/else chains and foreach keep order and nesting; data, invoke, send, donedata, param, content fields arrive unchanged under namespace prefixes, comments, both quote characters and entity references; equivalent descriptor spellings give the same model.',
+    'Trusted: mirsym + environment models; the quick-xml event-source model (mirsym/natives_xml.py), cross-checked on every run by executing sampled documents natively with the real quick-xml. Outside: byte-level tokenisation, XInclude (file I/O), CDATA text, larger documents. Two defects repaired (namespace-prefixed elements with child text panicked; entity references in element text kept verbatim).',
+    'DESIGN.md §4 C04')
+
+NA_REASON = {
+    'C13': 'The claim quantifies over interleavings of N producer threads with the session thread. Symbolic execution of the real code (mirsym; Kani has no concurrency support) runs one thread at a time; std::sync::mpsc is an environment model (a FIFO list), so "exactly once, per-sender order" would hold by construction of the model, not of the code: the check would be vacuous. The sequential residue (each dequeued event is processed to completion before the next dequeue, in queue order) is decided under C03. The property needs a schedule-exploring technique (loom/shuttle-style), which is outside this task\'s technique family.',
+    'C14': 'Sequential parts of the invoke life cycle are decided elsewhere (done.invoke on exitInterpreter: C07; routing of #_parent / #_<invokeid> sends and error events: C12/C15; cancel event ends the main loop: C03/C07). The remainder of the claim is about the race between child events, child completion and parent-side cancellation across two OS threads and an executor-owned session table; the engine executes threads one after another in a fixed composition, so the "for every outcome of that race" quantifier cannot be encoded, and the start-up path (executor thread spawn + XML/file loading of the child document) exceeds what the environment models cover soundly.',
+    'C20': 'The BasicHTTP processor is Rocket (async server on tokio) on the receiving side and ureq (blocking HTTP client over TcpStream) on the sending side; neither the async runtime nor socket I/O can be encoded by the MIR executor or by Kani (no async/FFI/network models), and the feature is not part of the encodable build (the MIR dump and harness crate build without BasicHttpEventIOProcessor because rocket\'s proc-macro and runtime crates pull in code far beyond the environment-model surface). A model of the HTTP layer would decide nothing about the real code.',
+}
 
 checks = []
 for p in props:
